@@ -18,6 +18,10 @@ type Mark struct {
 type Enc struct {
 	B     []byte
 	Marks []Mark
+	// Sites are the positions of every variable-length integer written
+	// (Form uvarint | varint | varlong; What "var"): length prefixes, tag
+	// keys/counts/sizes and varint/varlong value fields alike.
+	Sites []Mark
 	Err   error
 }
 
@@ -37,27 +41,25 @@ func (e *Enc) u32(v uint32) { e.B = binary.BigEndian.AppendUint32(e.B, v) }
 func (e *Enc) u64(v uint64) { e.B = binary.BigEndian.AppendUint64(e.B, v) }
 
 // uvarint is the base-128 little-endian varint of the protocol (uint32 range).
-func (e *Enc) uvarint(v uint32) int {
-	n := 0
-	for v >= 0x80 {
-		e.B = append(e.B, byte(v)|0x80)
-		v >>= 7
-		n++
-	}
-	e.B = append(e.B, byte(v))
-	return n + 1
-}
-
-func (e *Enc) varint(v int32) int { return e.uvarint(uint32(v<<1) ^ uint32(v>>31)) }
-
-func (e *Enc) varlong(v int64) {
-	u := uint64(v<<1) ^ uint64(v>>63)
+func (e *Enc) putUvar(u uint64, form string) int {
+	n := 1
 	for u >= 0x80 {
 		e.B = append(e.B, byte(u)|0x80)
 		u >>= 7
+		n++
 	}
 	e.B = append(e.B, byte(u))
+	e.Sites = append(e.Sites, Mark{len(e.B) - n, n, "var", form})
+	return n
 }
+
+func (e *Enc) uvarint(v uint32) int { return e.putUvar(uint64(v), "uvarint") }
+
+func (e *Enc) varint(v int32) int {
+	return e.putUvar(uint64(uint32(v<<1)^uint32(v>>31)), "varint")
+}
+
+func (e *Enc) varlong(v int64) { e.putUvar(uint64(v<<1)^uint64(v>>63), "varlong") }
 
 func uvarintLen(v uint32) int {
 	n := 1
@@ -92,6 +94,7 @@ func (e *Enc) structBody(s *Struct, v *SVal, version int) {
 		key  uint32
 		body []byte
 		mk   []Mark
+		st   []Mark
 	}
 	var tags []tagged
 	for i, f := range s.Fields {
@@ -107,7 +110,7 @@ func (e *Enc) structBody(s *Struct, v *SVal, version int) {
 			if sub.Err != nil {
 				e.fail("%v", sub.Err)
 			}
-			tags = append(tags, tagged{uint32(f.Tag), sub.B, sub.Marks})
+			tags = append(tags, tagged{uint32(f.Tag), sub.B, sub.Marks, sub.Sites})
 			continue
 		}
 		e.value(f.Type, v.F[i], version, flex)
@@ -119,7 +122,7 @@ func (e *Enc) structBody(s *Struct, v *SVal, version int) {
 		return
 	}
 	for _, t := range sortedTags(v.Unknown) {
-		tags = append(tags, tagged{t.Key, t.Val, nil})
+		tags = append(tags, tagged{t.Key, t.Val, nil, nil})
 	}
 	// KIP-482: tagged fields are written in ascending tag order.
 	for i := 1; i < len(tags); i++ {
@@ -140,6 +143,9 @@ func (e *Enc) structBody(s *Struct, v *SVal, version int) {
 		e.B = append(e.B, t.body...)
 		for _, m := range t.mk {
 			e.Marks = append(e.Marks, Mark{base + m.Off, m.Len, m.What, m.Form})
+		}
+		for _, m := range t.st {
+			e.Sites = append(e.Sites, Mark{base + m.Off, m.Len, m.What, m.Form})
 		}
 	}
 }
